@@ -460,6 +460,13 @@ class Runner:
         return [Outcome(st, 'break')]
 
     def st_If(self, s, st):
+        # `if xs: for x in xs: ...` is the loop alone (an empty sequence / mapping runs no iteration): no path split
+        if isinstance(s.test, ast.Name) and not s.orelse and len(s.body) == 1 and isinstance(s.body[0], ast.For):
+            it = s.body[0].iter
+            if isinstance(it, ast.Name) and it.id == s.test.id and not s.body[0].orelse:
+                tv = self.ex.ev(s.test, st)
+                if isinstance(tv.ty, (T.Seq, T.Map)) or tv.ty in (T.EMPTYSEQ, T.EMPTYDICT):
+                    return self.run_stmt(s.body[0], st)
         c = truthy(self.ex.ev(s.test, st))
         c = z3.simplify(c)
         outs = []
@@ -812,12 +819,12 @@ class Runner:
         for extra in spec.get('modifies', []):
             cls, fld = extra.split('.', 1)
             touch((self.ex.field_decl_class(cls, fld), fld), False)
+        if ('$alloc', 'next') in touched and ('$alloc', 'next') in st.heap:
+            nxt = z3.Int('alloc!%d' % next(_fresh_counter))
+            st.pc.append(nxt >= st.heap[('$alloc', 'next')])
+            st.heap[('$alloc', 'next')] = nxt
         for key, via_self in touched.items():
             if key == ('$alloc', 'next'):
-                if key in st.heap:
-                    nxt = z3.Int('alloc!%d' % next(_fresh_counter))
-                    st.pc.append(nxt >= st.heap[key])
-                    st.heap[key] = nxt
                 continue
             cls, fld = key
             k2, fty = self.ex.heap_arr(st, cls, fld)
@@ -832,6 +839,10 @@ class Runner:
                 # only the receiver object was written: every other object keeps its field
                 st.pc.append(z3.ForAll([r], z3.Implies(r != st.env['self'].t, newarr[r] == oldarr[r]),
                                        patterns=[newarr[r]]))
+            if ('$alloc', 'next') in st.heap:
+                f = self.ex.ghost_default_fact(k2, newarr, st.heap[('$alloc', 'next')])
+                if f is not None:
+                    st.pc.append(f)
 
     def assert_invs(self, invs, st, kind, label):
         saved = self.ctx.mode
